@@ -44,6 +44,65 @@ def leaves(a, b, out):
       if D.is_sym(ka[k]) and D.is_sym(kb[k]): leaves(ka[k], kb[k], out)
       elif not D.is_sym(ka[k]) and not D.is_sym(kb[k]): out.append((ka[k], kb[k]))
 
+def opq_places(x, path='', out=None, _seen=None):
+  """[(place, object)] for every opaque (non-symbolic, mutable) leaf object below x, in storage order -- descending through the items of symbolic
+  nodes and through tuples / plain lists / plain dicts held as leaves."""
+  out = [] if out is None else out
+  _seen = set() if _seen is None else _seen
+  if D.is_sym(x):
+    if id(x) in _seen: return out
+    _seen.add(id(x))
+    for k, v in D.sym_children(x):
+      opq_places(v, '%s[%r]' % (path, k), out, _seen)
+  elif isinstance(x, (tuple, list)):
+    for i, v in enumerate(x): opq_places(v, '%s(%d)' % (path, i), out, _seen)
+  elif isinstance(x, dict):
+    for k, v in x.items(): opq_places(v, '%s{%r}' % (path, k), out, _seen)
+  elif isinstance(x, D.Opq):
+    out.append((path, x))
+  return out
+
+def sharing_partition(places):
+  """The identity-sharing pattern of the places: a sorted list of sorted groups of places that hold one object."""
+  groups = {}
+  for p, o in places:
+    groups.setdefault(id(o), []).append(p)
+  return sorted(sorted(g) for g in groups.values())
+
+def check_sharing(orig, cl, deep):
+  """Sharing of opaque leaves between and within the trees.  Returns [(clause, what)]."""
+  pa, pb = opq_places(orig), opq_places(cl)
+  hits = []
+  if [p for p, _ in pa] != [p for p, _ in pb]:
+    return hits          # different shapes: reported by the equality clause
+  if deep:
+    ida = {id(o) for _, o in pa}
+    sh = [p for p, o in pb if id(o) in ida]
+    if sh:
+      hits.append(('deep-shared-leaf', 'a deep copy shares the mutable non-symbolic leaf object at %s with the original' % sh[0]))
+    sa, sb = sharing_partition(pa), sharing_partition(pb)
+    if sa != sb:
+      da = [g for g in sa if g not in sb]; db = [g for g in sb if g not in sa]
+      hits.append(('deep-sharing-differs', 'one leaf object is held at %s in the original; in the deep copy the places are grouped %s (copy.deepcopy memo semantics: an object referenced from '
+                                           'several places is copied once)' % (da[:1], db[:3])))
+    elif not sh:
+      # behaviourally: a mutation made through one place of the copy is seen through exactly the places that share it, and not in the original
+      for g in sb:
+        first = [o for p, o in pb if p == g[0]][0]
+        before_b = [(p, o.tag) for p, o in pb]; before_a = [(p, o.tag) for p, o in pa]
+        first.tag += 100000
+        seen = sorted(p for (p, o), (_, t) in zip(pb, before_b) if o.tag != t)
+        leaked = [p for (p, o), (_, t) in zip(pa, before_a) if o.tag != t]
+        first.tag -= 100000
+        if seen != g or leaked:
+          hits.append(('deep-sharing-differs', 'a change of the leaf made through %s of the deep copy is seen at %s (expected %s)%s' % (g[0], seen, g, '; and in the original at %s' % leaked if leaked else '')))
+          break
+  else:
+    diff = [p for (p, o), (_, o2) in zip(pa, pb) if o is not o2]
+    if diff:
+      hits.append(('shallow-copied-leaf', 'a shallow copy duplicated the non-symbolic leaf object at %s' % diff[0]))
+  return hits
+
 def check_clone(impl, orig, cl, deep, via):
   """Fidelity of one clone.  Returns [(clause, what)]."""
   P = D.pg()
@@ -80,14 +139,7 @@ def check_clone(impl, orig, cl, deep, via):
   D.walk(cl, lambda x, p, k: ids_b.add(id(x)))
   if ids_a & ids_b:
     hits.append(('shared-node', 'the copy shares a symbolic node with the original'))
-  lv = []
-  leaves(orig, cl, lv)
-  for x, y in lv:
-    if isinstance(x, D.Opq):
-      if not deep and x is not y:
-        hits.append(('shallow-copied-leaf', 'a shallow copy duplicated a non-symbolic leaf object')); break
-      if deep and x is y:
-        hits.append(('deep-shared-leaf', 'a deep copy shares a mutable non-symbolic leaf object')); break
+  hits.extend(check_sharing(orig, cl, deep))
   tmp = D.Impl(); tmp.roots.append(cl)
   for clause, what in C01.check_forest(tmp):
     hits.append(('copy-not-wellformed', 'the copy is not a well-formed tree: %s %s' % (clause, what))); break
@@ -158,6 +210,7 @@ def extras(ctx):
   scope_sweep(ctx)
   special_sweep(ctx)
   primed_sweep(ctx)
+  sharing_sweep(ctx)
 
 # ----------------------------------------------------------------------------------------------------
 # Oracle-only sweeps over values the SymCore model does not contain.
@@ -628,6 +681,69 @@ def primed_sweep(ctx):
                                         'original, equals what a copy of a never-queried twin reports, does not move when the original is mutated, and cannot be used to change the original')
   ctx.log('primed-query sweep (oracle only): %d cases in %.1fs' % (n, time.time() - t0))
 
+# ----------------------------------------------------------------------------------------------------
+# One opaque leaf object at several places (oracle only): sibling subtrees, nested-then-root, root-then-nested, in lists, object fields, inside
+# tuples, with and without another opaque leaf copied before the first occurrence; every copy route.  Deep copies: the identity-sharing partition
+# of the places equals the original's (copy.deepcopy memo semantics), nothing is shared with the original, a change made through one place is seen
+# through exactly the places that share the object.  Shallow copies: every place holds the original's object.
+def sharing_values():
+  P = D.pg()
+  A, B, C = D.classes()
+  def two(): return D.Opq(1), D.Opq(2)
+  shapes = {
+      'flat diamond Dict(p=a, q=a)': lambda a, b: P.Dict(p=a, q=a),
+      'sibling subtrees Dict(x=Dict(v=a), y=Dict(v=a))': lambda a, b: P.Dict(x=P.Dict(v=a), y=P.Dict(v=a)),
+      'nested then root Dict(x=Dict(v=a), p=a)': lambda a, b: P.Dict(x=P.Dict(v=a), p=a),
+      'root then nested Dict(p=a, x=Dict(v=a))': lambda a, b: P.Dict(p=a, x=P.Dict(v=a)),
+      'another leaf first Dict(b=b, x=Dict(v=a), y=Dict(v=a))': lambda a, b: P.Dict(b=b, x=P.Dict(v=a), y=P.Dict(v=a)),
+      'another leaf nested first Dict(w=Dict(b=b), x=Dict(v=a), y=Dict(v=a))': lambda a, b: P.Dict(w=P.Dict(b=b), x=P.Dict(v=a), y=P.Dict(v=a)),
+      'depth 3 Dict(x=Dict(m=Dict(v=a)), y=List([Dict(v=a)]))': lambda a, b: P.Dict(x=P.Dict(m=P.Dict(v=a)), y=P.List([P.Dict(v=a)])),
+      'list elements List([List([a]), List([a]), a])': lambda a, b: P.List([P.List([a]), P.List([a]), a]),
+      'list of dicts List([Dict(v=a), Dict(v=b), Dict(v=a)])': lambda a, b: P.List([P.Dict(v=a), P.Dict(v=b), P.Dict(v=a)]),
+      'object fields B(x=A(x=a), y=A(y=a), z=a)': lambda a, b: B(x=A(x=a), y=A(y=a), z=a),
+      'object in dict Dict(o=A(x=a), d=Dict(k=a))': lambda a, b: P.Dict(o=A(x=a), d=P.Dict(k=a)),
+      'inside tuples Dict(x=Dict(t=(a, 1)), y=Dict(t=(2, a)))': lambda a, b: P.Dict(x=P.Dict(t=(a, 1)), y=P.Dict(t=(2, a))),
+      'two shared objects Dict(x=Dict(u=a, v=b), y=Dict(u=b, v=a))': lambda a, b: P.Dict(x=P.Dict(u=a, v=b), y=P.Dict(u=b, v=a)),
+      'three places List([Dict(v=a), [Dict(w=a)], Dict(z=Dict(v=a))])': lambda a, b: P.List([P.Dict(v=a), [P.Dict(w=a)], P.Dict(z=P.Dict(v=a))]),
+      'sealed Dict(x=Dict(v=a), y=Dict(v=a))': lambda a, b: P.Dict(x=P.Dict(v=a), y=P.Dict(v=a)).seal(),
+  }
+  for name, mk in shapes.items():
+    yield name, (lambda mk=mk: mk(*two()))
+    # the same shape one level down (the memo arrives from an enclosing node)
+    yield 'Dict(h=%s)' % name, (lambda mk=mk: P.Dict(h=mk(*two())))
+    yield 'List([0, %s])' % name, (lambda mk=mk: P.List([0, mk(*two())]))
+
+def sharing_probe(c):
+  P = D.pg()
+  make = dict(sharing_values())[c['value']]
+  how = c['how']
+  deep = how in DEEP_COPIES
+  a = make()
+  before = deep_view(a); part = sharing_partition(opq_places(a))
+  b = (DEEP_COPIES if deep else SHALLOW_COPIES)[how](a)
+  out = []
+  dk = 'deep copy' if deep else 'shallow copy'
+  if not P.eq(a, b): out.append(('C07/not-equal/%s/shared-leaf' % dk, 'pg.eq(original, copy) is False for %s' % c['value']))
+  if deep_view(a) != before or sharing_partition(opq_places(a)) != part:
+    out.append(('C07/original-modified/%s/shared-leaf' % dk, 'copying changed the original'))
+  for clause, what in check_sharing(a, b, deep):
+    out.append(('C07/%s/%s/one-object-at-several-places' % (clause, dk), '%s of %s: %s' % (how, c['value'], what)))
+  return out
+
+def sharing_sweep(ctx):
+  n = 0
+  for vname, _ in sharing_values():
+    for how in list(DEEP_COPIES) + list(SHALLOW_COPIES):
+      c = dict(kind='sharing', value=vname, how=how)
+      n += 1
+      ctx.evaluations += 1
+      for sig, what in sharing_probe(c):
+        ctx.hit(sig, what, c)
+  ctx.extra['sharing_sweep'] = dict(oracle_only=True, cases=n, what='one opaque mutable leaf object at several places (sibling subtrees, nested-then-root, root-then-nested, lists, object fields, tuples, '
+                                    'with / without another leaf copied first; alone and one level down) x 6 copy routes: the identity-sharing partition of a deep copy equals the original\'s, no '
+                                    'leaf is shared with the original, a change through one place is seen through exactly the sharing places; shallow copies hold the original\'s objects')
+  ctx.log('sharing sweep (oracle only): %d cases' % n)
+
 # clones made inside scopes keep the flags of every node (typed children included: they are re-applied by the constructor)
 _TYPED = None
 def typed_classes():
@@ -712,6 +828,8 @@ def replay(ctx, rp):
     return not special_probe(rp['case'])
   if rp.get('case', {}).get('kind') == 'primed':
     return not primed_probe(rp['case'])
+  if rp.get('case', {}).get('kind') == 'sharing':
+    return not sharing_probe(rp['case'])
   return D.replay_property(ctx, rp, Oracle)
 
 # ----------------------------------------------------------------------------------------------------
